@@ -92,8 +92,8 @@ func c08Expected(E int, limit, passes uint) int {
 
 func c08Bounded(dec config.DecoderType, preload bool) {
 	E := int(vConcretize(vNondetInt("E", 1, 3)))
-	limit := uint(vNondetInt("limit", 0, 3))
-	passes := uint(vNondetInt("passes", 0, 3))
+	limit := uint(vNondetInt("limit", 0, vHi(3, 8)))
+	passes := uint(vNondetInt("passes", 0, vHi(3, 8)))
 	vAssume(limit != 0 || passes != 0)
 	exp := c08Expected(E, limit, passes)
 	res := c08Drain(dec, c08File(dec, E), limit, passes, preload, nil, 1000)
